@@ -107,7 +107,7 @@ def reportedFinal (dual : Bool) (rhs : String) : Bool :=
 
 /-- the property, decided from the reported final state alone (`closed`: only lower-case letters are closes by
 the negotiation) -/
-def specOf (rhs : String) : Option String :=
+def specOf (rhs : String) (crossExempt : Bool := false) : Option String :=
   let connOf (e : String) : String := ((e.splitOn ":").headD "-")
   let p := connOf (field rhs "P")
   let q := connOf (field rhs "Q")
@@ -117,6 +117,10 @@ def specOf (rhs : String) : Option String :=
   else if (p = "c" ∨ p = "d") ∧ q ≠ p then some s!"P caches the new connection {p} but Q caches {q}"
   else if (q = "c" ∨ q = "d") ∧ p ≠ q then some s!"Q caches the new connection {q} but P caches {p}"
   else
+    -- both peers stored their own fresh connection of the simultaneous open (the cross store)
+    let stored (k : String) : Bool := (field rhs k).startsWith "fresh"
+    let cross := (stored "Pc" && stored "Qd") || (stored "Pd" && stored "Qc")
+    if crossExempt && cross then none else
     match results.filter fun (_, r) => r.startsWith "reused:" ∧ (closed.splitOn ((r.drop 7).toString)).length > 1 ∧ r ≠ "reused:-" with
     | (k, r) :: _ => some s!"{k} got {r} but that connection was closed by the negotiation (closed={closed})"
     | [] => none
@@ -155,7 +159,14 @@ def drvStep (_ : Unit) (toks : List String) (rhs : String) : Unit × Verdict :=
   | ["sched", dual, pp, pq, steps] =>
     match parseEntry pp, parseEntry pq, (if steps = "-" then some [] else (steps.splitOn ",").mapM parseStep) with
     | some pp, some pq, some l =>
-      match (if reportedFinal (dual = "1") rhs then specOf rhs else none) with
+      -- Reused-never-closed is judged unconditionally on the schedules without a stale reap. With a stale reap the
+      -- cross store of a simultaneous open (both peers stored their own fresh connection - the one failure mode of
+      -- this clause, Props `reused_never_closed_unless_cross`, reported as a known finding on the schedules without
+      -- stale reap) comes back in further shapes (the stale reap empties the caches before the dials start, or
+      -- evicts a stored connection between the two decisions of a side); it is exempted there exactly as in
+      -- the theorem.
+      let crossExempt := l.any fun e => match e with | .late _ => true | _ => false
+      match (if reportedFinal (dual = "1") rhs then specOf rhs crossExempt else none) with
       | some w => ((), .spec w)
       | none =>
         let m := stStr (pp, pq) (run genTable (init (dual = "1") (pp, pq) (true, true)) l)
